@@ -45,7 +45,7 @@ def _set(v, p, new):
 
 
 REWRITES = ["identity", "bool<->int", "int<->float", "key-order", "swap-elements", "neighbour-int", "change-char",
-            "drop-member", "add-member", "negzero", "wrap", "replace"]
+            "drop-member", "add-member", "negzero", "wrap", "replace", "another-kind"]
 
 
 @st.composite
@@ -123,6 +123,25 @@ def rewrite(draw, v):
             new = -0.0
         else:
             kind = "identity"
+    elif kind == "another-kind":
+        # a value of another JSON type that a Python programmer could mistake for the same thing: a string and the
+        # array of its characters, an object and the array of its keys / of its [key, value] pairs, a number and its
+        # decimal spelling as a string, null / false / 0 / "" / [] / {}
+        if isinstance(node, str):
+            new = draw(st.sampled_from([list(node), [node], dict((c, c) for c in node)]))
+        elif isinstance(node, list) and all(isinstance(e, str) and len(e) == 1 for e in node):
+            new = "".join(node)
+        elif isinstance(node, dict):
+            new = draw(st.sampled_from([list(node), [[k, v] for k, v in node.items()], sorted(node.items())]))
+            new = [list(e) if isinstance(e, tuple) else e for e in new]
+        elif isinstance(node, bool) or node is None:
+            new = draw(st.sampled_from([None, False, 0, "", [], {}, "null", "false"]))
+        elif isinstance(node, (int, float)):
+            new = repr(node)
+        else:
+            new = {} if node == [] else [] if node == {} else node
+            if new is node:
+                kind = "identity"
     elif kind == "wrap":
         new = [copy.deepcopy(node)]
     elif kind == "replace":
